@@ -20,7 +20,7 @@ INFO = {
                    "local result are ever written through _values/_keys; generated functions execute with closed globals; "
                    "nothing evicts cache entries. NOT decided: arbitrary thread interleavings (the code has no lock "
                    "discipline to analyse) and value-level aliasing of coefficient objects between operand and result.",
-    "decided": ["C09.name-injective", "C09.by-name-twin", "C09.exception-atomic", "C09.storage-writers",
+    "decided": ["C09.name-injective", "C09.token-atomic", "C09.by-name-twin", "C09.exception-atomic", "C09.storage-writers",
                 "C09.numspace-writers", "C09.module-state", "C09.closed-functions", "C10.no-eviction"],
     "not_decided": ["thread interleavings (clause d)", "aliasing of coefficient objects between operands and results"],
     "assumptions": ["sympy code generation is deterministic for a given cache key"],
@@ -159,7 +159,7 @@ def check_name_injective(ctx, repo):
 
 
 @rule("C09.name-injective", props=["C09", "C13"], min_instances=3, mutants=[
-    ("drop the fresh suffix (unary)", ("operator_dict", "            keys_out, func = do_codegen(self.codegen, mv)\n            func.__name__ = f'{func.__name__}_{len(self.algebra.numspace)}'\n",
+    ("drop the fresh suffix (unary)", ("operator_dict", "            keys_out, func = do_codegen(self.codegen, mv)\n            func.__name__ = f'{func.__name__}_{id(func)}'\n",
                                        "            keys_out, func = do_codegen(self.codegen, mv)\n")),
 ])
 def name_injective(ctx):
@@ -185,6 +185,39 @@ def _fx_name(ctx):
     sub = Ctx(repo, ctx.rule_id)
     check_name_injective(sub, repo)
     ctx.instances.extend(sub.instances)
+
+
+# --------------------------------------------------------------------------- race-free fresh token (one clause of the thread statement)
+@rule("C09.token-atomic", props=["C09"], min_instances=3, mutants=[
+    ("token from the size of the shared name space (check-then-act)", ("operator_dict", "            keys_out, func = do_codegen(self.codegen, mv)\n            func.__name__ = f'{func.__name__}_{id(func)}'", "            keys_out, func = do_codegen(self.codegen, mv)\n            func.__name__ = f'{func.__name__}_{len(self.algebra.numspace)}'")),
+])
+def token_atomic(ctx):
+    """The token that makes a generated function's name unique must not be read from shared state that the same
+    code then updates (two threads filling the cache concurrently read the same size and collide); accepted:
+    the identity of the freshly generated function object, an atomic counter, a uuid."""
+    for q in GETITEMS:
+        fn = ctx.func(q)
+        for n in walk_shallow(fn):
+            tgt = None
+            if isinstance(n, ast.Assign):
+                tgt = [t for t in n.targets if isinstance(t, ast.Attribute) and t.attr == "__name__"]
+            elif isinstance(n, ast.AugAssign) and isinstance(n.target, ast.Attribute) and n.target.attr == "__name__":
+                tgt = [n.target]
+            if not tgt:
+                continue
+            c = f"{q}#name-token"
+            calls = [call_name(c2) or "" for c2 in ast.walk(n.value) if isinstance(c2, ast.Call)]
+            shared = [c2 for c2 in ast.walk(n.value) if isinstance(c2, ast.Call) and (call_name(c2) or "") in ("len", "sum", "max")
+                      and c2.args and (_is_numspace(c2.args[0]) or (chain(c2.args[0]) or "").endswith(".operator_dict"))]
+            if shared:
+                ctx.violation(c, f"the unique suffix {un(n.value)[:70]} is read from shared state ({un(shared[0])}) that this very "
+                                 f"code then grows: two threads generating functions for different key orders of the same "
+                                 f"blades at the same time read the same size, get the same name, and one overwrites the "
+                                 f"other in the name space", n)
+            elif any(cn in ("id", "next", "uuid.uuid4", "uuid4") for cn in calls):
+                ctx.ok(c, n, token=un(n.value)[:70])
+            else:
+                raise Unknown(c, f"unrecognised name token {un(n.value)[:80]}", n)
 
 
 # --------------------------------------------------------------------------- who may write the name space
@@ -303,8 +336,8 @@ def check_exception_atomic(ctx, fn, q):
 
 
 @rule("C09.exception-atomic", props=["C09"], min_instances=9, mutants=[
-    ("cache entry stored before the wrapper runs", ("operator_dict", "            keys_out, func = do_compile(self.codegen, *tapes)\n            func.__name__ = f'{func.__name__}_{len(self.algebra.numspace)}'\n            self.algebra.numspace[func.__name__] = self.algebra.wrapper(func) if self.algebra.wrapper else func\n            self.operator_dict[keys_in] = (keys_out, func)",
-                                                    "            keys_out, func = do_compile(self.codegen, *tapes)\n            func.__name__ = f'{func.__name__}_{len(self.algebra.numspace)}'\n            self.operator_dict[keys_in] = (keys_out, func)\n            self.algebra.numspace[func.__name__] = self.algebra.wrapper(func) if self.algebra.wrapper else func")),
+    ("cache entry stored before the wrapper runs", ("operator_dict", "            keys_out, func = do_compile(self.codegen, *tapes)\n            func.__name__ = f'{func.__name__}_{id(func)}'\n            self.algebra.numspace[func.__name__] = self.algebra.wrapper(func) if self.algebra.wrapper else func\n            self.operator_dict[keys_in] = (keys_out, func)",
+                                                    "            keys_out, func = do_compile(self.codegen, *tapes)\n            func.__name__ = f'{func.__name__}_{id(func)}'\n            self.operator_dict[keys_in] = (keys_out, func)\n            self.algebra.numspace[func.__name__] = self.algebra.wrapper(func) if self.algebra.wrapper else func")),
 ])
 def exception_atomic(ctx):
     """A failing generation/compilation/wrapper leaves operator_dict and numspace untouched (TS)."""
